@@ -52,8 +52,12 @@ def findKey (kf : KeyFile) (g : Str) (k : Option Str) : Except Err Nat :=
 def freshEntry (g k : Str) : Entry :=
   { group := g, key := k, value := some NONE, cb := none, ca := none, line := 0, quotes := false }
 
-def setAt (es : List Entry) (i : Nat) (v : Str) : List Entry :=
-  es.modify i (fun e => { e with value := some v })
+/-- store `v` in the first entry with the group and key; `none` when there is no such entry -/
+def setFirst (g k : Str) (v : Str) : List Entry → Option (List Entry)
+  | [] => none
+  | e :: es =>
+    if e.group == g && e.key == k then some ({ e with value := some v } :: es)
+    else (setFirst g k v es).map (e :: ·)
 
 /-- `setKeyValue`: find the entry or append a new one, then store the text.
     `txt` is the conversion of the typed argument (an error leaves a created entry behind,
@@ -66,16 +70,15 @@ def setValue (kf : KeyFile) (g : Option Str) (k : Option Str) (txt : Except Err 
     if k.isEmpty then (kf, .emptykey)
     else
       let g := normGroup g
-      match findIdx kf.entries g k with
-      | some i =>
+      if (findIdx kf.entries g k).isSome then
         (match txt with
-         | .ok v => ({ kf with entries := setAt kf.entries i v }, .success)
+         | .ok v => ({ kf with entries := (setFirst g k v kf.entries).getD kf.entries }, .success)
          | .error e => (kf, e))
-      | none =>
-        let kf' := { kf with entries := kf.entries ++ [freshEntry g k], groups := addGroup (addGroup kf.groups NONE) g }
+      else
+        let groups := addGroup (addGroup kf.groups NONE) g
         (match txt with
-         | .ok v => ({ kf' with entries := setAt kf'.entries kf.entries.length v }, .success)
-         | .error e => (kf', e))
+         | .ok v => ({ kf with entries := kf.entries ++ [{ freshEntry g k with value := some v }], groups := groups }, .success)
+         | .error e => ({ kf with entries := kf.entries ++ [freshEntry g k], groups := groups }, e))
 
 /-- string value getter: `Except` error or the stored text (NULL = none) -/
 def getString (kf : KeyFile) (g k : Option Str) : Except Err (Option Str) :=
